@@ -12,8 +12,8 @@ EXPLANATION = (
     "Value forms of devices.ADC and utils.shortest_int. C18.1 (must-pass-through): the code array that reaches the output (both otype "
     "settings) is the rounded code clamped to [0, 2**n-1] (np.clip / .clip / minimum-maximum pair with exactly those bounds); without "
     "the clamp out-of-range samples produce codes outside the n-bit range. C18.2: the code is round((x-V_min)/(V_max-V_min)*(2**n-1)), "
-    "the 'v' back-map is its exact affine inverse (composition = identity), [V_min, V_max] = shortest_int(signal, 99.99), any other otype "
-    "raises ValueError. C18.3: shortest_int sorts the data, uses lag = int(len*p/100), forms the candidates sorted[lag:]-sorted[:-lag] and "
+    "the 'v' back-map is its exact affine inverse (composition = identity), [V_min, V_max] = shortest_int(signal, 99.99)"
+    ". C18.3: shortest_int sorts the data, uses lag = int(len*p/100), forms the candidates sorted[lag:]-sorted[:-lag] and "
     "returns (sorted[i], sorted[i+lag]) where i is argmin of the candidates (an element of the minimiser set); an index computed "
     "arithmetically from several minimisers (mean, midpoint) need not be a minimiser and is reported; the truncated quantity is "
     "(p*len)/100 evaluated product-first (floor makes the floating-point rounding order observable). A cast applied before the clamp must hold every rounded value (int/int64/float; a narrower type wraps out-of-range codes before they can saturate). C18.4: no late binding of gv. Not decided: distribution-"
@@ -177,7 +177,7 @@ def run(ctx):
                       f"quantiser map differs from {code_want!r}")
     it = Interp(pkg, param_classes={"input": "electrical_signal"}, assumptions={"input.noise": "none", "fs": None, "otype": "volts"}, no_inline=("shortest_int",))
     outs = it.run(fi)
-    ctx.check("C18.2", bool(outs) and all(o.kind == "raise" for o in outs) and outs[-1].exc == "ValueError", fi, fi.node, "ADC: unknown otype", "raises ValueError", "an unknown otype does not raise ValueError")
+    pass  # (clause removed: the property statement names no exception for this case - it was read off the docstring, i.e. the check demanded more than the property)
     # ---------------------------------------------------------------- shortest_int
     fs_ = pkg.func("utils.shortest_int")
     it = Interp(pkg)
@@ -241,5 +241,5 @@ def run(ctx):
             ctx.unknown("C18.3", fs_, rets[0].node, f"shortest_int: index {i!r}"[:300], "index selection idiom not recognised")
     check_late_binding(ctx, "C18.4", ["devices.ADC", "utils.shortest_int"])
     ctx.require_min("C18.1", 4)
-    ctx.require_min("C18.2", 7)
+    ctx.require_min("C18.2", 6)
     ctx.require_min("C18.3", 2)
